@@ -428,7 +428,15 @@ def conc(data, kind=None, shape=None):
         raise Undecided('array item store')
     a.hooks['getitem'] = getitem
     a.hooks['setitem'] = setitem
-    a.methods['ravel'] = lambda itp, o, aa, k: conc(_flat(o.attrs['_data']) if o.attrs['shape'] else [o.attrs['_data']], o.attrs['dtype'].attrs['kind'])
+    def ravel(itp, o, aa, k):
+        order = aa[0] if aa else k.get('order', 'C')
+        if order not in ('C', 'F') or len(aa) > 1 or any(kk != 'order' for kk in k):
+            raise Undecided('ravel(%s)' % render(list(aa) + sorted(k.items())))
+        src = o
+        if order == 'F' and len(o.attrs['shape']) > 1:
+            src = itp.getattr_(o, 'T')           # column-major order = row-major order of the transposed array
+        return conc(_flat(src.attrs['_data']) if src.attrs['shape'] else [src.attrs['_data']], o.attrs['dtype'].attrs['kind'])
+    a.methods['ravel'] = ravel
     a.methods['tolist'] = lambda itp, o, aa, k: _c.deepcopy(o.attrs['_data'])
     a.methods['copy'] = lambda itp, o, aa, k: conc(o.attrs['_data'], o.attrs['dtype'].attrs['kind'], o.attrs['shape'])
     a.methods['astype'] = lambda itp, o, aa, k: conc(o.attrs['_data'], kind_char(aa[0] if aa else k.get('dtype')), o.attrs['shape'])
@@ -1106,6 +1114,9 @@ def sc_concatenate(P):
     for ax in (0, 1, -1, -2, 'x', 'y'):
         labB = {'x': 'L_xB'} if ax in (0, -2, 'x') else {'x': 'L_x', 'y': 'L_yB'}
         out.append(('two 2-d arrays along %r' % (ax,), lambda ax=ax, labB=labB: ([[A(xy), arr_of(P, 'B', xy, labB)]], {'axis': ax}, O())))
+    for ax in (-1, -2, -3, 2):
+        labB = {-1: {'z': 'L_zB'}, 2: {'z': 'L_zB'}, -2: {'y': 'L_yB'}, -3: {'x': 'L_xB'}}[ax]
+        out.append(('two 3-d arrays along %r' % (ax,), lambda ax=ax, labB=labB: ([[A(xyz), arr_of(P, 'B', xyz, dict({'x': 'L_x'}, **labB))]], {'axis': ax}, O())))
     out.append(('two 2-d arrays, axis omitted', lambda: ([[A(xy), B(xy)]], {}, O())))
     out.append(('tuple of arrays', lambda: ([(A(xy), B(xy))], {'axis': 'x'}, O())))
     out.append(('one array', lambda: ([[A(xy)]], {'axis': 'x'}, O())))
@@ -2014,7 +2025,7 @@ SCENARIOS = {
     'dimarray.core.align.align': ((), sc_align),         # the decision procedure of c06.rule_align (C04-R7, C06-R3, C12-R7, C13-R7)
     'dimarray.core.align._get_aligned_axes': (('C06', 'C12'), sc_aligned_axes),
     'dimarray.core.align.reindex_like': ((), sc_reindex_like),          # the decision procedure of C07-R4
-    'dimarray.core.align._get_axes': (('C10', 'C04', 'C12'), sc_get_axes),
+    'dimarray.core.align._get_axes': (('C10', 'C04'), sc_get_axes),       # (not C12: stack() compares every input axis with the common axes itself)
     'dimarray.core.align.stack': (('C12', 'C05'), sc_stack),
     'dimarray.core.align.concatenate': (('C12',), sc_concatenate),
     'dimarray.core.reshape.transpose': (('C10', 'C04', 'C12'), sc_transpose),
